@@ -734,7 +734,7 @@ def _expand_monomials(e):
 def mk_sum(bounds, body):
     """bounds: list of (var (z3 Int const), lo, hi) ; body: z3 Real expr. Returns z3 Real expr."""
     body = to_real(body)
-    bounds = [(v, to_int(lo), to_int(hi)) for v, lo, hi in bounds]
+    bounds = [(v, z3.simplify(to_int(lo)), z3.simplify(to_int(hi))) for v, lo, hi in bounds]
     if not bounds:
         return body
     # ranges must not depend on the other bound variables of this sum for the rules below
@@ -778,6 +778,8 @@ def _atomic_sum(bounds, body):
 
 def _opaque_sum(bounds, body):
     import hashlib
+
+    body = z3.simplify(body)
 
     best = None
     for perm in itertools.permutations(range(len(bounds))):
